@@ -23,6 +23,7 @@ import (
 
 	"rivaas.dev/app"
 	riverrors "rivaas.dev/errors"
+	"rivaas.dev/router"
 	"verif/harness/hx"
 )
 
@@ -70,6 +71,10 @@ type acaseT struct {
 	PreAt int     `json:",omitempty"`
 	// AbortFirst: the failing handler calls c.Abort() itself before it fails (guard style)
 	AbortFirst bool `json:",omitempty"`
+	// NoCancelCheck: the app's router is built with router.WithoutCancellationCheck() (its other Next loop)
+	NoCancelCheck bool `json:",omitempty"`
+	// NextAfterFail: the failing handler goes on to call c.Next() after it failed (a guard with a missing return)
+	NextAfterFail bool `json:",omitempty"`
 	// CtxDone: the request's context becomes done inside the failing handler before it fails
 	// (1 cancelled, 2 deadline exceeded) — a backend call timed out, the handler answers 504
 	CtxDone int `json:",omitempty"`
@@ -297,6 +302,9 @@ func handlerAt(i int) app.HandlerFunc {
 				helperCalls[k.Call.Helper](c, sl.err)
 			}
 			sl.aborted = c.IsAborted()
+			if k.NextAfterFail {
+				c.Next()
+			}
 			return
 		}
 		if k.Mask&(1<<i) != 0 {
@@ -339,13 +347,16 @@ func permutations(xs []string) [][]string {
 	return out
 }
 
-func getApp(opts []optT) *builtApp {
+func getApp(opts []optT, noCancel bool) *builtApp {
 	keyB, _ := json.Marshal(opts)
-	key := string(keyB)
+	key := string(keyB) + fmt.Sprint(noCancel)
 	if b, ok := apps[key]; ok {
 		return b
 	}
 	ao := []app.Option{app.WithServiceName("c06"), app.WithServiceVersion("1.0.0")}
+	if noCancel {
+		ao = append(ao, app.WithRouter(router.WithoutCancellationCheck()))
+	}
 	for _, o := range opts {
 		switch {
 		case o.F != nil:
@@ -510,7 +521,7 @@ func observe(slot, st int, ct string, body []byte, panicked bool) obsT {
 }
 
 func runA(k acaseT) (obsT, []string) {
-	b := getApp(k.Opts)
+	b := getApp(k.Opts, k.NoCancelCheck)
 	answers := answersFor(b, k.Accept)
 	arm(0, &k)
 	st, ct, body, panicked := serve(b, k.Wire, k.route(), k.Accept, 0)
@@ -558,7 +569,7 @@ func (w *parkWriter) Write(p []byte) (int, error) {
 }
 
 func runO(k ocaseT) ([]obsT, [][]string) {
-	b := getApp(k.Opts)
+	b := getApp(k.Opts, false)
 	n := len(k.Reqs)
 	answers := make([][]string, n)
 	for i := range k.Reqs {
@@ -926,6 +937,12 @@ func lineA(id string, k acaseT, o obsT, answers []string, st *hx.Stats) string {
 		}
 		if k.CtxDone != 0 {
 			st.Count("fail_with_context_done")
+		}
+		if k.NextAfterFail {
+			st.Count("fail_then_next")
+		}
+		if k.NoCancelCheck {
+			st.Count("fail_router_without_cancellation_check")
 		}
 	}
 	return l.String()
